@@ -121,7 +121,8 @@ def run_offsets(case: dict):
             return viol("never-disconnected", f"Titan without an upload handler, peer silent after {case['k']} bytes; still open at {HORIZON}s", **info)
         if tr.close_time() > RT + 0.5:
             return viol("disconnected-late", f"closed at t={tr.close_time()} (request timeout {RT}s)", **info)
-        if isinstance(wf, str) or wf[0] not in (40, 50, 59):
+        if isinstance(wf, str) or 20 <= wf[0] <= 29:
+            # refused at once (which status a server without uploads uses is C08's subject) or timed out with a 40
             return viol("no-40-on-timeout", f"{S[:80]!r}", **info)
         return ok(**info)
     if not complete:
